@@ -11,7 +11,8 @@
                 Word; the decade `1990s` is this pattern at its `0s`), or lex_hostname_token answers on the text
                 from that position (`as.b`: Word Period Word, `AS.B`: one Hostname — FC18c; stated with the
                 model's own lex_hostname_token, so `as-is`, `as.` and `as.b.` are NOT excluded)
-     Q_apos     [A-Za-z0-9] ' [sS] LA   (`a's` is one Word for the lexer, `A'S` Word Apostrophe Word)
+     Q_apos     [A-Za-z0-9] ['’] [sS] LA   (`a's` is one Word for the lexer, `A'S` Word Apostrophe Word; phase 6: also
+                with U+2019 — `a’s` is Word Apostrophe Word — so that the class is closed under ’ -> ', C18LexCurly.v)
      Q_hex      0 [xX] [0-9A-Fa-f]      (`0x1` is a hexadecimal Number, `0X1` a Number and a Word)
      LA         = end of text, or a character that is neither a word character nor an ASCII digit of the class
      LOOK-BEHIND  a pattern only counts where the character BEFORE it is not a word character (or the text starts):
@@ -21,8 +22,8 @@
                 characters are no word characters), so `John's`, `this.is`, `MP3s` are NOT excluded
 
      alnum text   every character is a word character (not an ASCII digit), an ASCII digit (that the tables call
-                  numeric), a blank, a punctuation / quote character other than  @ : [ ’ ‘ ＇  — period and
-                  straight apostrophe allowed —, or a character no sub-lexer claims; none of the patterns occurs
+                  numeric), a blank, a punctuation / quote character other than  @ : [ ‘ ＇  — period,
+                  straight apostrophe and (phase 6) U+2019 allowed —, or a character no sub-lexer claims; none of the patterns occurs
      Rl u a c     as in C18LexDots (equal, or word characters with the same ASCII-letter key, or both unclaimed);
                   an ASCII digit is only related to itself
      plain_parse_alnum : Forall2 (Rl u) s s' -> Alnum u s -> Alnum u s' -> plain_parse u s' = plain_parse u s
@@ -34,7 +35,10 @@
 Require Import Base Overlap OverlapProofs Tables_lexer Lexer Condense ListLemmas LexerProofs Shape C18LexStable C18PassesIC C18LexDots.
 From Coq Require Import Lia ZArith.
 
-Definition bad3 : list N := [64; 58; 91; 8217; 8216; 65287]%N.
+Definition bad3 : list N := [64; 58; 91; 8216; 65287]%N.
+(* an apostrophe for the lexer: the straight one and U+2019, both Punctuation::Apostrophe; title-casing may
+   write the first over the second (phase 6) *)
+Definition is_apo39 (c : N) : bool := ceq c 39 || ceq c 8217.
 Definition dch (u : uni) (c : N) : bool := is_ascii_digit c && u_numeric u c.
 Definition char3 (u : uni) (c : N) : bool :=
   negb (mem_n c bad3) && (wch u c || dch u c || ichar u c || ochar u c).
@@ -53,7 +57,7 @@ Definition q_plural (u : uni) (s : text) : bool :=
   end.
 Definition q_apos (u : uni) (s : text) : bool :=
   match s with
-  | c0 :: c1 :: c2 :: r => is_ascii_alphanumeric c0 && ceq c1 39 && is_s c2 && la3 u r
+  | c0 :: c1 :: c2 :: r => is_ascii_alphanumeric c0 && is_apo39 c1 && is_s c2 && la3 u r
   | _ => false
   end.
 Definition q_hex (s : text) : bool :=
@@ -406,7 +410,7 @@ Section Alnum.
       left. destruct t as [|c2 t2]; [reflexivity|].
       destruct (ceq c2 115) eqn:E115; [|reflexivity].
       assert (S2 : is_s c2 = true) by (unfold is_s; rewrite E115; reflexivity).
-      unfold q_apos in Q2. rewrite Ac, E39, S2 in Q2. cbn [andb] in Q2.
+      unfold q_apos, is_apo39 in Q2. rewrite Ac, E39, S2 in Q2. cbn [andb orb] in Q2.
       destruct t2 as [|d t3]; [cbn [la3] in Q2; discriminate|].
       destruct (u_alphanumeric u d) eqn:Ad; cbn [negb]; [reflexivity|].
       cbn [la3] in Q2. rewrite (not_alnum_la d Ad) in Q2. discriminate.
@@ -879,7 +883,9 @@ Section Alnum.
     intros H. unfold q_apos.
     destruct H as [|c0 d0 l l' H0 H]; [reflexivity|]. destruct H as [|c1 d1 l l' H1 H]; [reflexivity|].
     destruct H as [|c2 d2 l l' H2 H]; [reflexivity|].
-    rewrite <- (Rl_alnum u c0 d0 H0), <- (Rl_ceqr 39 c1 d1 (or_intror eq_refl) H1), <- (Rl_is_s c2 d2 H2), (Rl_la l l' H).
+    unfold is_apo39.
+    rewrite <- (Rl_alnum u c0 d0 H0), <- (Rl_ceqr 39 c1 d1 (or_intror eq_refl) H1),
+      <- (Rl_ceqr 8217 c1 d1 (or_intror eq_refl) H1), <- (Rl_is_s c2 d2 H2), (Rl_la l l' H).
     reflexivity.
   Qed.
 
@@ -917,7 +923,7 @@ Theorem lex_alnum_stable u (s s' : text) : Forall2 (Rl u) s s' -> Alnum u s -> A
 Proof. intros HR HP HP'. split; [apply plain_parse_alnum|apply document_plain_alnum]; assumption. Qed.
 
 (* ================= the class contains the plain and the dotted class ================= *)
-Lemma q_rest_false u c r : is_ascii_digit c = false -> (forall c1 t, r = c1 :: t -> ceq c1 39 = false) ->
+Lemma q_rest_false u c r : is_ascii_digit c = false -> (forall c1 t, r = c1 :: t -> is_apo39 c1 = false) ->
   q_apos u (c :: r) = false /\ q_hex (c :: r) = false.
 Proof.
   intros D A. split.
@@ -960,7 +966,7 @@ Proof.
   assert (M : mem_n c bad3 = false).
   { unfold mem_n, bad3. cbn [existsb]. rewrite !(N.eqb_sym c).
     rewrite (char2_not_bad u c 64 H), (char2_not_bad u c 58 H), (char2_not_bad u c 91 H),
-      (char2_not_bad u c 8217 H), (char2_not_bad u c 8216 H), (char2_not_bad u c 65287 H); cbn; tauto. }
+      (char2_not_bad u c 8216 H), (char2_not_bad u c 65287 H); cbn; tauto. }
   unfold char3. rewrite M. cbn [negb andb].
   destruct Hcl as [W|[I|O]]; [rewrite W; reflexivity|rewrite I|rewrite O]; rewrite ?orb_true_r; reflexivity.
 Qed.
@@ -972,8 +978,9 @@ Proof.
   apply negb_true_iff in HC0. cbn [ctx_ok3]. pose proof (IH (Some c) Pr HC1) as E0. unfold text, char in *. rewrite E0, andb_true_r. apply negb_true_iff.
   apply andb_false_intro2.
   destruct (char2_parts u c Pc) as [_ [Dc _]].
-  assert (A39 : forall c1 t, r = c1 :: t -> ceq c1 39 = false).
-  { intros c1 t ->. inversion Pr; subst. unfold ceq. rewrite N.eqb_sym. apply (char2_not_bad u c1 39); [assumption|cbn; tauto]. }
+  assert (A39 : forall c1 t, r = c1 :: t -> is_apo39 c1 = false).
+  { intros c1 t ->. inversion Pr; subst. unfold is_apo39, ceq. rewrite !(N.eqb_sym c1).
+    rewrite (char2_not_bad u c1 39), (char2_not_bad u c1 8217); [reflexivity|assumption|cbn; tauto|assumption|cbn; tauto]. }
   unfold q_here. destruct (q_rest_false u c r Dc A39) as [E1 E2]. unfold text, char in *. rewrite E1, E2, !orb_false_r.
   unfold q_plural. destruct r as [|c1 t]; [reflexivity|]. rewrite Dc. cbn [orb].
   destruct (is_ascii_alphanumeric c) eqn:Ac; [|reflexivity]. destruct (is_s c1) eqn:S1; [|reflexivity].
@@ -1007,7 +1014,7 @@ Proof.
   assert (M : mem_n c bad3 = false).
   { unfold mem_n, bad3. cbn [existsb]. rewrite !(N.eqb_sym c).
     rewrite (plain_not_bad u c 64 H), (plain_not_bad u c 58 H), (plain_not_bad u c 91 H),
-      (plain_not_bad u c 8217 H), (plain_not_bad u c 8216 H), (plain_not_bad u c 65287 H); cbn; tauto. }
+      (plain_not_bad u c 8216 H), (plain_not_bad u c 65287 H); cbn; tauto. }
   unfold char3, wch. rewrite M, Hd. cbn [negb andb]. rewrite andb_true_r.
   destruct Hcl as [W|[I|O]]; [rewrite W; reflexivity|rewrite I|rewrite O]; rewrite ?orb_true_r; reflexivity.
 Qed.
@@ -1018,8 +1025,9 @@ Proof.
   pose proof HP as HP0. inversion HP0 as [|c' r' Pc Pr]; subst.
   cbn [ctx_ok3]. pose proof (IH (Some c) Pr) as E0. unfold text, char in *. rewrite E0, andb_true_r. apply negb_true_iff. apply andb_false_intro2.
   destruct (plain_parts u c Pc) as [_ [Dc _]].
-  assert (A39 : forall c1 t, r = c1 :: t -> ceq c1 39 = false).
-  { intros c1 t ->. inversion Pr; subst. unfold ceq. rewrite N.eqb_sym. apply (plain_not_bad u c1 39); [assumption|cbn; tauto]. }
+  assert (A39 : forall c1 t, r = c1 :: t -> is_apo39 c1 = false).
+  { intros c1 t ->. inversion Pr; subst. unfold is_apo39, ceq. rewrite !(N.eqb_sym c1).
+    rewrite (plain_not_bad u c1 39), (plain_not_bad u c1 8217); [reflexivity|assumption|cbn; tauto|assumption|cbn; tauto]. }
   unfold q_here. destruct (q_rest_false u c r Dc A39) as [E1 E2]. unfold text, char in *. rewrite E1, E2, !orb_false_r.
   unfold q_plural. destruct r as [|c1 t]; [reflexivity|]. rewrite Dc. cbn [orb].
   rewrite (hostname_none (c :: c1 :: t)); [cbn [is_some]; rewrite andb_false_r; reflexivity|].
